@@ -373,6 +373,12 @@ def unrelated_registrations(ctx):
     n0 = len(reg.data)
     try:
         CoinA = type('VerifCoin', (GridObject,), dict(body, __module__='verif_coins_a'))
+        try:
+            CoinA()
+        except TypeError:
+            # the way a user defines a grid-object class has changed (another required attribute): this probe knows the pinned way only
+            ctx.count('unrelated registration', 'the probe\'s user class cannot be instantiated: skipped')
+            return
         s = State(Grid([[Floor(), CoinA(), Wall()], [Floor(), Floor(), CoinA()]]), Agent(Position(1, 0), Orientation.F, CoinA()))
         c0 = copy.deepcopy(s)
         h0 = hash(s)
